@@ -113,6 +113,7 @@ struct Ctx {
   long long skip_until = 0;  // case indices below this are not executed (resume after a crash)
   long long index = 0;       // running case index inside this shard
   char *inflight = nullptr;  // shared slot describing the case being executed
+  unsigned watchdog_s = 300;  // per-case limit inside a worker
   FILE *out = nullptr;
   std::vector<KnownFinding> known;
   long long evaluations = 0; long long failures_written = 0; std::map<std::string, int> fail_keys;
@@ -136,7 +137,7 @@ struct Ctx {
   bool begin(const std::string &caseid, const std::string &text) {
     long long my = index++;
     if (my < skip_until) return false;
-    if (inflight) { snprintf(inflight, 4096, "%lld\n%s\n%s", my, caseid.c_str(), text.c_str()); }
+    if (inflight) { snprintf(inflight, 4096, "%lld\n%s\n%s", my, caseid.c_str(), text.c_str()); alarm(watchdog_s); /* a case that does not come back ends the worker (SIGALRM) and is attributed like a crash */ }
     evaluations++;
     return true;
   }
